@@ -22,7 +22,7 @@ CLIP = 2 * 10 ** 9
 CLAUSES = {1: "an exception was raised", 2: "a reported confidence lies outside [0, 1] by more than 1e-9",
            3: "hypothesis posteriors do not sum to 1", 4: "a confidence changed when a constant was added to all logits of the frames "
            "/ all scores of the bag (alignment held fixed)", 5: "line_confident_enough answers differently for the shifted logits",
-           6: "line_confident_enough is not monotone in its threshold", 7: "one-hot posteriors do not give confidence 1",
+           6: "the confident-line test (line_confident_enough / PageDecoder.decode_line keeping the line) is not monotone in its threshold", 7: "one-hot posteriors do not give confidence 1",
            8: "the bag confidence is not the largest normalised posterior", 16: "ALTO line / word confidence differs from the exact median",
            11: "get_line_confidence differs from the exact value of the model", 12: "get_letter_confidence differs from the exact value",
            13: "compute_line_confidence differs from the exact value", 14: "line_confident_enough differs from the exact comparison",
@@ -101,6 +101,28 @@ def render(wm, d, consts):
     return sp.csc_matrix(lg)
 
 
+class _ProbeDecoder:
+    """stands for the prefix decoder behind PageDecoder: only notes that it was asked"""
+    _lm = None
+
+    def __init__(self):
+        self.called = False
+
+    def __call__(self, logits, **kw):
+        self.called = True
+        return self
+
+    def best_hyp(self):
+        return "decoded"
+
+
+def _system_confident(line, threshold):
+    from pero_ocr.document_ocr.page_parser import PageDecoder
+    probe = _ProbeDecoder()
+    PageDecoder(probe, line_confidence_threshold=threshold, carry_h_over=False).decode_line(line)
+    return not probe.called
+
+
 def _line_case(item):
     from pero_ocr.core.layout import TextLine
     from pero_ocr.core.confidence_estimation import get_line_confidence, get_letter_confidence
@@ -109,7 +131,7 @@ def _line_case(item):
     t, nc, d = _CFG["T"], _CFG["NC"], _CFG["D"]
     rng = random.Random(seed)
     rec = {"kind": "line", "w": [list(r) for r in wm], "labels": list(labels), "al": list(al), "seed": seed, "outcome": "ok",
-           "lc": [], "lc_s": [], "let": [], "let_s": [], "cmp": 0, "cmp_s": 0, "lce": [], "lce_s": [], "lce_neg": [], "lce_neg_s": [],
+           "lc": [], "lc_s": [], "let": [], "let_s": [], "cmp": 0, "cmp_s": 0, "lce": [], "lce_s": [], "lce_neg": [], "lce_neg_s": [], "sys": [], "sys_s": [],
            "over": 0, "dshift": 0, "dshift_cmp": 0, "one": 0, "one_cmp": 0}
     try:
         c0 = [rng.uniform(-3, 3) for _ in range(t)]
@@ -147,6 +169,9 @@ def _line_case(item):
             rec["lce" + key] = lce
             with np.errstate(all="ignore"):
                 rec["lce_neg" + key] = [bool(line_confident_enough(dense.copy(), thr)) for thr in (-1.0, -0.001)]
+                # the confident-line test as the system applies it: PageDecoder.decode_line keeps the line (prefix decoder not
+                # called) or decodes it; thresholds in increasing order -1, -0.001, 0, 1/(2D), ..., 1
+                rec["sys" + key] = [_system_confident(line, thr) for thr in [-1.0, -0.001] + [k / (2.0 * d) for k in range(2 * d + 1)]]
             vals.append((lc, let, cmp_))
         (lc, let, cm), (lcs, lets, cms) = vals
         if len(lc) != len(labels) or len(let) != len(labels) or len(lcs) != len(labels) or len(lets) != len(labels):
@@ -182,7 +207,7 @@ def _bag_case(item):
     rng = random.Random(seed)
     n = len(v)
     rec = {"kind": "bag", "v": list(v), "lm": list(lm), "scale": "0" if scale == "none" else scale, "has_lm": scale != "none", "seed": seed,
-           "outcome": "ok", "post": [], "conf": 0, "tconf": [], "tabsent": 0, "sumdev": 0, "over": 0, "dshift": 0, "confdev": 0}
+           "wide": False, "outcome": "ok", "post": [], "conf": 0, "tconf": [], "tabsent": 0, "sumdev": 0, "over": 0, "dshift": 0, "confdev": 0}
     try:
         weight = {"none": 1.0, "0": 0.0, "half": 0.5, "1": 1.0, "2": 2.0}[scale]
         mixed = scale != "none" and seed % 3 == 0 and 9 in lm and any(x != 9 for x in lm)
@@ -225,6 +250,58 @@ def _bag_case(item):
         b = obs[1][0] + [obs[1][1]] + obs[1][2]
         rec["dshift"] = _u12(max(abs(x - y) for x, y in zip(a, b)))
         rec["confdev"] = max(_u12(abs(o[1] - max(o[0]))) for o in obs_all)       # confidence() vs the largest posterior
+    except Exception as ex:
+        rec["outcome"] = "exception:" + type(ex).__name__
+    return rec
+
+
+WIDE_VIS = (0.0, -3.0, -40.0, -400.0, -800.0, -1500.0)
+WIDE_LM = (None, -0.5, -20.0, -300.0, -900.0)
+WIDE_WEIGHTS = (0.0, 0.5, 1.0, 2.0, 80.0)
+
+
+def _wide_bag_case(seed):
+    """bags with a large dynamic range: hypotheses hundreds of nats apart, in any order (the first hypothesis is not the best
+    one), LM scores that disagree with the visual scores, large LM weights.  Only the clauses of the statement are judged
+    (range, sum to 1, invariance under a constant added to every score, confidence = largest posterior), not exact values."""
+    from pero_ocr.decoding.bag_of_hypotheses import BagOfHypotheses
+    rng = random.Random(seed)
+    n = rng.choice((1, 2, 2, 3, 3, 4))
+    vis = [rng.choice(WIDE_VIS) + rng.uniform(-1, 0) for _ in range(n)]
+    lms = [rng.choice(WIDE_LM) for _ in range(n)]
+    if rng.random() < 0.6:
+        lms = [(-1.0 if x is None else x) for x in lms]            # every hypothesis has an LM score: the LM weight matters
+    weight = rng.choice(WIDE_WEIGHTS)
+    rec = {"kind": "bag", "v": [1] * n, "lm": [1] * n, "scale": "0", "has_lm": False, "seed": seed, "wide": True,
+           "vis": ["%.3f" % x for x in vis], "lms": [str(x) for x in lms], "weight": str(weight),
+           "outcome": "ok", "post": [], "conf": 0, "tconf": [], "tabsent": 0, "sumdev": 0, "over": 0, "dshift": 0, "confdev": 0}
+    try:
+        const = rng.uniform(-30, 5)
+        obs = []
+        with np.errstate(all="ignore"):
+            for cst in (const, const + rng.choice([-1, 1]) * rng.uniform(0.5, 10)):
+                bag = BagOfHypotheses(lm_weight=weight)
+                for i in range(n):
+                    bag.add("h%d" % i, vis[i] + cst, lms[i])
+                post = [float(math.exp(p)) for p in bag.posteriors()]
+                conf = float(bag.confidence())
+                tconf = [float(bag.transcript_confidence("h%d" % i)) for i in range(n)]
+                obs.append((post, conf, tconf, float(bag.transcript_confidence("not in the bag"))))
+        post, conf, tconf, tabs = obs[0]
+        allv = [x for o in obs for x in o[0] + [o[1]] + o[2] + [o[3]]]
+        if any(x != x for x in allv):
+            rec["outcome"] = "exception:NaN"
+            return rec
+        rec["post"] = [_m6(p) for p in post]
+        rec["conf"] = _m6(conf)
+        rec["tconf"] = [_m6(p) for p in tconf]
+        rec["tabsent"] = _m6(tabs)
+        rec["sumdev"] = max(_u12(abs(sum(o[0]) - 1.0)) for o in obs)
+        rec["over"] = _u12(max(max(x - 1.0 for x in allv), max(-x for x in allv)))
+        a = obs[0][0] + [obs[0][1]] + obs[0][2]
+        b = obs[1][0] + [obs[1][1]] + obs[1][2]
+        rec["dshift"] = _u12(max(abs(x - y) for x, y in zip(a, b)))
+        rec["confdev"] = max(_u12(abs(o[1] - max(o[0]))) for o in obs)
     except Exception as ex:
         rec["outcome"] = "exception:" + type(ex).__name__
     return rec
@@ -336,12 +413,15 @@ def judge(ctx, c, traces, what_of, name=None):
 
 def _what_line(tr):
     return ("weights=%s labels=%s alignment=%s -> line conf %s / shifted %s, letter conf %s / %s, compute_line_confidence %s / %s "
-            "(millionths), over=%s dshift=%s dshift_cmp=%s (1e-12), confident_enough %s / %s, outcome=%s" % (
+            "(millionths), over=%s dshift=%s dshift_cmp=%s (1e-12), confident_enough %s / %s, PageDecoder keeps the line at -1, -0.001, 0 .. 1: %s, outcome=%s" % (
                 tr["w"], tr["labels"], tr["al"], tr["lc"], tr["lc_s"], tr["let"], tr["let_s"], tr["cmp"], tr["cmp_s"], tr["over"],
-                tr["dshift"], tr["dshift_cmp"], tr["lce"], tr["lce_s"], tr["outcome"]))
+                tr["dshift"], tr["dshift_cmp"], tr["lce"], tr["lce_s"], tr.get("sys"), tr["outcome"]))
 
 
 def _what_bag(tr):
+    if tr.get("wide"):
+        return "bag visual scores=%s (+ constant) lm scores=%s lm_weight=%s -> posteriors %s confidence %s sumdev=%s over=%s dshift=%s outcome=%s" % (
+            tr["vis"], tr["lms"], tr["weight"], tr["post"], tr["conf"], tr["sumdev"], tr["over"], tr["dshift"], tr["outcome"])
     return "bag vis weights=%s lm weights=%s/10 lm_weight=%s has_lm=%s -> posteriors %s confidence %s sumdev=%s over=%s outcome=%s" % (
         tr["v"], tr["lm"], tr["scale"], tr["has_lm"], tr["post"], tr["conf"], tr["sumdev"], tr["over"], tr["outcome"])
 
@@ -393,6 +473,13 @@ def run(ctx):
         ctx.count(1, ("bag", tuple(tr["v"]), tuple(tr["lm"]), tr["scale"], tr["has_lm"]) if len(tr["v"]) > 1 else None)
     ctx.sample({"config": "bag", "trace": traces[len(traces) // 2]}, limit=6)
     judge(ctx, c, traces, _what_bag, "bags of hypotheses")
+    # bags with a large dynamic range, unsorted, with disagreeing LM scores and large LM weights (a seeded sample)
+    nwide = 1500 if ctx.tier == "quick" else 20000
+    traces = pmap(_wide_bag_case, [(ctx.seed % 1000) * 1000000 + 500000 + i for i in range(nwide)], procs=6)
+    for tr in traces:
+        ctx.count(1, ("widebag", tuple(tr["vis"]), tuple(tr["lms"]), tr["weight"]) if len(tr["vis"]) > 1 else None)
+    ctx.sample({"config": "bag", "trace": traces[len(traces) // 2]}, limit=6)
+    judge(ctx, c, traces, _what_bag, "wide-range bags of hypotheses")
     # word and line confidences as reported by the ALTO export
     items = [(cs, (ctx.seed % 1000) * 1000000 + i) for i, cs in enumerate(alto_cases(ctx.rng, 120 if ctx.tier == "quick" else 800))]
     ctx.exhaustive = False       # the ALTO cases are a seeded sample of the per-character weight combinations
@@ -419,5 +506,5 @@ def replay(ctx, case):
         judge(ctx, c, traces, _what_alto)
     else:
         scale = tr["scale"] if tr["has_lm"] else "none"
-        traces = [_bag_case(((tuple(tr["v"]), tuple(tr["lm"]), scale), tr["seed"]))]
+        traces = [_wide_bag_case(tr["seed"])] if tr.get("wide") else [_bag_case(((tuple(tr["v"]), tuple(tr["lm"]), scale), tr["seed"]))]
         judge(ctx, c, traces, _what_bag)
